@@ -86,6 +86,7 @@ type shardState struct {
 	from     int
 	attempts int
 	done     bool
+	hangs    int
 }
 
 func verifDir() string {
@@ -155,11 +156,19 @@ func ParentMain(propID, tier string, seed int64, workerBin string) int {
 				cur := readCur(dir, sh)
 				stderrTxt := tailFile(stderrPath, 1<<16)
 				if code == 97 {
+					st.hangs++
+					if st.hangs > 4 {
+						// enough confirmed hangs in this shard: do not spend more minutes on it
+						mu.Lock()
+						m.Inconclusive = append(m.Inconclusive, fmt.Sprintf("shard %d: stopped after %d watchdog firings", sh, st.hangs))
+						mu.Unlock()
+						return
+					}
 					// watchdog: re-run the case alone under a CPU limit
-					c2, s2 := runChild(p, workerBin, propID, tier, seed, sh, nsh, 0, cur.Idx, dir, st.attempts, 60)
+					c2, s2 := runChild(p, workerBin, propID, tier, seed, sh, nsh, 0, cur.Idx, dir, st.attempts, 20)
 					mu.Lock()
 					if c2 == 152 || c2 == 137 || c2 == 97 || c2 == -24 {
-						m.Violations = append(m.Violations, Violation{Property: propID, Tier: tier, Seed: seed, Idx: cur.Idx, Kind: "hang", Key: "hang|" + hangKey(cur.Input), Input: cur.Input, Detail: "case exceeded the per-case watchdog and then 60 s of CPU when re-run alone"})
+						m.Violations = append(m.Violations, Violation{Property: propID, Tier: tier, Seed: seed, Idx: cur.Idx, Kind: "hang", Key: "hang|" + hangKey(cur.Input), Input: cur.Input, Detail: "case exceeded the per-case watchdog and then 20 s of CPU when re-run alone"})
 					} else if c2 != 0 {
 						k, d := classifyDeath(tailFile(s2, 1<<16))
 						m.Violations = append(m.Violations, Violation{Property: propID, Tier: tier, Seed: seed, Idx: cur.Idx, Kind: "fatal", Key: k, Input: cur.Input, Detail: d})
